@@ -135,6 +135,8 @@ def run(ctx: core.Ctx):
 
     from .. import strided
     strided.probe(ctx, "a non-contiguous view of an argument gives exactly the result of its contiguous copy (the kernel reads the cells it was given)", only=['ws2dgu', 'ws2dpgu'])
+    from .. import accessor_args
+    accessor_args.nodata_precedence(ctx, ['whits', 'whits_p'])
     # accessor: whits with s / sg / p and the three dimension orders
     from hdc.algo.ops import ws2dgu, ws2dpgu
     for k in range(ctx.budget(8, 60)):
